@@ -7,6 +7,7 @@ package main
 
 import (
 	"go/types"
+	"strconv"
 
 	"golang.org/x/tools/go/ssa"
 )
@@ -18,12 +19,51 @@ type MapEntry struct {
 type MapData struct {
 	KT, VT  types.Type
 	Entries []MapEntry
+	// Idx: position of every entry whose key is a concrete string or integer
+	// (keys never change once stored); NonIdx counts the other entries. A
+	// lookup with a concrete key in a map without symbolic keys is one hash
+	// probe instead of a scan, which is what makes histories with ~1000
+	// entries affordable. Purely an optimisation of mapFind.
+	Idx    map[string]int32
+	NonIdx int
 }
 
 func (d *MapData) CloneAux() Aux {
-	n := &MapData{KT: d.KT, VT: d.VT, Entries: make([]MapEntry, len(d.Entries))}
+	n := &MapData{KT: d.KT, VT: d.VT, Entries: make([]MapEntry, len(d.Entries)), NonIdx: d.NonIdx}
 	copy(n.Entries, d.Entries)
+	if d.Idx != nil {
+		n.Idx = make(map[string]int32, len(d.Idx))
+		for k, v := range d.Idx {
+			n.Idx[k] = v
+		}
+	}
 	return n
+}
+
+// keyIndex: a hashable rendering of a concrete string / integer key.
+func (m *Machine) keyIndex(KT types.Type, key Value) (string, bool) {
+	switch k := key.(type) {
+	case StringVal:
+		if s, ok := m.goString(k); ok {
+			return "s" + s, true
+		}
+	case *Term:
+		if b, isB := KT.Underlying().(*types.Basic); isB && b.Info()&types.IsInteger != 0 && k.IsConst() {
+			return "i" + strconv.FormatUint(k.K, 16), true
+		}
+	}
+	return "", false
+}
+
+func (m *Machine) reindex(d *MapData) {
+	d.Idx, d.NonIdx = map[string]int32{}, 0
+	for i, e := range d.Entries {
+		if ks, ok := m.keyIndex(d.KT, m.Load(d.KT, Ptr{ID: e.K})); ok {
+			d.Idx[ks] = int32(i)
+		} else {
+			d.NonIdx++
+		}
+	}
 }
 
 func (m *Machine) newMap(mt *types.Map) Value {
@@ -64,6 +104,14 @@ func (m *Machine) mapLen(v Value) int {
 
 // mapFind returns the index of the entry whose key equals key, or -1.
 func (m *Machine) mapFind(d *MapData, key Value) int {
+	if d.NonIdx == 0 && len(d.Entries) > 8 {
+		if ks, ok := m.keyIndex(d.KT, key); ok {
+			if i, hit := d.Idx[ks]; hit {
+				return int(i)
+			}
+			return -1
+		}
+	}
 	for i, e := range d.Entries {
 		k := m.Load(d.KT, Ptr{ID: e.K})
 		eq := m.eqValues(d.KT, k, key)
@@ -108,6 +156,14 @@ func (m *Machine) mapAssign(mv Value, key Value) Ptr {
 	m.Store(d.KT, Ptr{ID: ko.id}, key)
 	vo := m.w.Alloc(sizeof(d.VT), "map-value")
 	d.Entries = append(d.Entries, MapEntry{K: ko.id, V: vo.id})
+	if ks, ok := m.keyIndex(d.KT, key); ok {
+		if d.Idx == nil {
+			d.Idx = map[string]int32{}
+		}
+		d.Idx[ks] = int32(len(d.Entries) - 1)
+	} else {
+		d.NonIdx++
+	}
 	return Ptr{ID: vo.id}
 }
 
@@ -127,6 +183,7 @@ func (m *Machine) mapDelete(mt *types.Map, mv, key Value) {
 	}
 	d = m.mapData(mv, true)
 	d.Entries = append(d.Entries[:i:i], d.Entries[i+1:]...)
+	m.reindex(d)
 }
 
 // ---- iteration ----
